@@ -162,6 +162,11 @@ def run(pid, tier):
                         "nonblock": c["nonblock"], "script": c["script"], "src": "tlc"})
     if pid == "C17":
         scs = [s for s in scs if s["vec"]]
+        # an element count only the kernel can answer (-1): the call must come back with the kernel's refusal
+        for call, rd in (("readv", True), ("writev", False)):
+            for where in ("thread", "co"):
+                scs.append({"call": call, "shape": [1, 2], "vec": False, "msg": False, "isRead": rd, "nonblock": False, "where": where, "neg_count": True,
+                            "script": [{"k": "err", "n": 0}], "src": "bad-count"})
     if pid == "C18":
         nb = [s for s in scs if s["nonblock"]]
         bl = [s for s in scs if not s["nonblock"]]
